@@ -86,25 +86,110 @@ Proof. exact (never_stuck_any gen_methods gen_methods_ok). Qed.
 Print Assumptions C18_never_stuck.
 
 (* a proxy, whoever created it, resolves to what the ACCESSING context sees: the bound object, or
-   RuntimeError / False / the fallback repr exactly when nothing is bound there (proxy_spec);
-   and using it changes no view *)
+   RuntimeError (with the proxy's own unbound_message) / False / the fallback repr exactly when nothing
+   is bound there (proxy_spec); and using it changes no view.  The _get_current_object closures, the
+   exception flow of _ProxyLookup.__get__ and the fallback table are regenerated terms (gco_local,
+   gco_stack, lookup_catch, proxy_table in C18/Gen.v) interpreted by the model. *)
 Theorem C18_proxy : forall steps c i d a, let w := fst (run gen_methods steps) in
   nth_error (w_prox w) i = Some d ->
   forall m, nth_error (w_ctx w) c = Some m ->
   snd (step gen_methods w (c, OpProxy i a))
-    = proxy_spec a (bound_of (fun var => deref (w_heap w) (rget m var)) d) /\
+    = proxy_spec a (pmsg d) (bound_of (fun var => deref (w_heap w) (rget m var)) d) /\
   forall c' var, view (fst (step gen_methods w (c, OpProxy i a))) c' var = view w c' var.
 Proof. exact (proxy_any gen_methods gen_methods_ok). Qed.
 Print Assumptions C18_proxy.
 
-Theorem C18_proxy_unbound_iff : forall b,
-  (proxy_spec PaCurrent b = ORuntimeError <-> b = None) /\
-  (b = None -> proxy_spec PaBool b = OBool false /\ proxy_spec PaRepr b = ORepr None
-               /\ proxy_spec PaGetAttr b = ORuntimeError /\ proxy_spec PaSetAttr b = ORuntimeError) /\
-  (forall x, b = Some x -> proxy_spec PaCurrent b = OVal x /\ proxy_spec PaBool b = OBool (truthy x)
-               /\ proxy_spec PaRepr b = ORepr (Some x) /\ proxy_spec PaGetAttr b = OVal x).
+Theorem C18_proxy_unbound_iff : forall msg b,
+  (proxy_spec PaCurrent msg b = ORuntimeError <-> b = None) /\
+  (b = None -> proxy_spec PaBool msg b = OBool false /\ proxy_spec PaRepr msg b = ORepr None
+               /\ proxy_spec PaGetAttr msg b = ORuntimeError /\ proxy_spec PaSetAttr msg b = ORuntimeError
+               /\ proxy_spec PaMessage msg b = OMsg msg) /\
+  (forall x, b = Some x -> proxy_spec PaCurrent msg b = OVal x /\ proxy_spec PaBool msg b = OBool (truthy x)
+               /\ proxy_spec PaRepr msg b = ORepr (Some x) /\ proxy_spec PaGetAttr msg b = OVal x
+               /\ proxy_spec PaSetAttr msg b = OVal x).
 Proof. exact proxy_spec_cases. Qed.
 Print Assumptions C18_proxy_unbound_iff.
+
+(* EVERY proxied operation: whichever entry of the regenerated table of LocalProxy (all _ProxyLookup /
+   _ProxyIOp names, 93 at this commit) is looked up, in whichever context, it is forwarded to exactly the
+   object bound in the accessing context; with nothing bound it raises RuntimeError unless the entry has
+   a fallback.  A special method defined directly on LocalProxy is refused by the translator. *)
+Theorem C18_proxy_every_operation : forall steps c i d e pe, let w := fst (run gen_methods steps) in
+  nth_error (w_prox w) i = Some d -> nth_error proxy_table e = Some pe ->
+  forall m, nth_error (w_ctx w) c = Some m ->
+  snd (step gen_methods w (c, OpProxy i (PaEntry e))) =
+    match bound_of (fun var => deref (w_heap w) (rget m var)) d with
+    | Some x => OFwd e x
+    | None => match pe_fallback pe with FbNone => ORuntimeError | k => OFallback k end
+    end.
+Proof. exact (proxy_every_any gen_methods gen_methods_ok). Qed.
+Print Assumptions C18_proxy_every_operation.
+
+Theorem C18_proxy_table : 
+  map pe_id proxy_table = seq 0 (length proxy_table) /\
+  forallb (fun pe => match pe_fallback pe with FbTrue | FbOther => false | _ => true end) proxy_table = true /\
+  entry_unbound_spec entry_bool = OFallback FbFalse /\ entry_unbound_spec entry_repr = OFallback FbUnboundRepr /\
+  entry_unbound_spec entry_getattr = ORuntimeError /\ entry_unbound_spec entry_setattr = ORuntimeError /\
+  60 <= length proxy_table.
+Proof. exact proxy_table_facts. Qed.
+Print Assumptions C18_proxy_table.
+
+(* the snapshot persists: a child created by c (copy_context, task; c may itself be a child, to any
+   depth) keeps seeing exactly what c saw at that moment whatever every other context does afterwards *)
+Theorem C18_snapshot_persists : forall steps c more var,
+  let w := fst (run gen_methods steps) in let n := length (w_ctx w) in
+  c < n -> Forall (fun s : nat * op => fst s <> n) more ->
+  view (fst (run gen_methods (steps ++ (c, OpSpawn) :: more))) n var = view w c var.
+Proof. exact (snapshot_persists_any gen_methods gen_methods_ok). Qed.
+Print Assumptions C18_snapshot_persists.
+
+(* request end: closing a response wrapped by LocalManager(ls).make_middleware in context c runs the
+   application's own close first and cleanup last (closing_order, regenerated from ClosingIterator), so
+   afterwards every managed local is empty in c whatever that close stored; other contexts: C18_sibling_frame *)
+Theorem C18_request_end : forall steps c ls ac l, let w := fst (run gen_methods steps) in
+  c < length (w_ctx w) -> In l ls ->
+  view (fst (step gen_methods w (c, OpMwClose ls ac))) c (var_of l) = Some (Some (empty_for l)).
+Proof. exact (request_end_any gen_methods gen_methods_ok). Qed.
+Print Assumptions C18_request_end.
+
+(* below operation granularity: with arbitrary cells appended by other contexts between any two
+   instructions of one method call, no cell that existed before the call is ever written *)
+Theorem C18_cow_sound_interleaved : forall p, cow_safe p = true ->
+  forall ps h b intf l, l < length h ->
+  nth_error (s_heap (fst (exec_intf ps (init_st h b) p intf))) l = nth_error h l.
+Proof. exact cow_sound_interleaved. Qed.
+Print Assumptions C18_cow_sound_interleaved.
+
+(* one instruction: it writes only cells this call allocated and has not yet published (owned), and
+   ContextVar.set gives up everything owned, so a published cell is never written again *)
+Theorem C18_cow_instruction_guarantee : forall ps i p' fresh s s' owned,
+  cow_safe_from fresh (PDo i p') = true -> own_ok fresh s owned ->
+  exec_instr ps s i = Some s' ->
+  (forall l, ~ In l owned -> l < length (s_heap s) -> nth_error (s_heap s') l = nth_error (s_heap s) l) /\
+  exists fresh' owned', cow_safe_from fresh' p' = true /\ own_ok fresh' s' owned' /\
+    (forall l, In l owned' -> In l owned \/ l = length (s_heap s)) /\
+    (forall r, i = ISet r -> owned' = []).
+Proof. exact cow_instr_guarantee. Qed.
+Print Assumptions C18_cow_instruction_guarantee.
+
+(* which clauses of cow_safe are needed for what: write-after-publish is invisible at operation
+   granularity but mutates a published cell (so the publish clause is exactly what the instruction-level
+   theorems need); and cow_safe is sufficient, not necessary (set(get()) is harmless and rejected) *)
+Example C18_write_after_publish_witness :
+  cow_safe prog_write_after_publish = false /\
+  let s1 := fst (exec [3; 4]%N (init_st [] None) prefix_until_publish) in
+  let s2 := fst (exec [3; 4]%N (init_st [] None) prog_write_after_publish) in
+  s_bind s1 = Some 1 /\ s_bind s2 = Some 1 /\
+  nth_error (s_heap s1) 1 = Some (ODict []) /\ nth_error (s_heap s2) 1 = Some (ODict [(3, 4)]%N).
+Proof. exact write_after_publish_witness. Qed.
+Print Assumptions C18_write_after_publish_witness.
+
+Example C18_cow_safe_not_necessary :
+  cow_safe prog_set_what_was_got = false /\
+  forall ps h l, l < length h ->
+    nth_error (s_heap (fst (exec ps (init_st h (Some l)) prog_set_what_was_got))) l = nth_error h l.
+Proof. exact cow_safe_not_necessary. Qed.
+Print Assumptions C18_cow_safe_not_necessary.
 
 (* middleware glue: wrapping a response iterable (make_middleware) and discarding it, in whatever
    context that happens, leave the whole world as it is; closing it is OpCleanup, already covered by
@@ -133,3 +218,18 @@ Example C18_views_differ :
   view (fst (run gen_methods leak_schedule)) 1 (svar 0) = Some (Some (OList [5; 6]%N)).
 Proof. exact views_differ. Qed.
 Print Assumptions C18_views_differ.
+
+Example C18_round2_examples :
+  let w := fst (run gen_methods mw_schedule) in
+  let w' := fst (step gen_methods w (1, OpMwClose [(false, 0); (true, 0)] (Some (0, 2%N, 9%N)))) in
+  view w 1 (lvar 0) = Some (Some (ODict [(1, 7)]%N)) /\
+  view w' 1 (lvar 0) = Some (Some (ODict [])) /\ view w' 1 (svar 0) = Some (Some (OList [])) /\
+  view w' 0 (lvar 0) = Some (Some (ODict [(1, 7)]%N)) /\
+  snd (step gen_methods w (1, OpProxy 0 (PaEntry 31))) = OFwd 31 1006%N /\
+  snd (step gen_methods w (0, OpProxy 0 (PaEntry 31))) = ORuntimeError /\
+  snd (step gen_methods w (0, OpProxy 0 (PaEntry entry_repr))) = OFallback FbUnboundRepr /\
+  snd (step gen_methods w (0, OpProxy 0 PaMessage)) = OMsg (Some 4%N) /\
+  view (fst (run gen_methods (mw_schedule ++ [(0, OpSet 0 1%N 8%N); (0, OpLRelease 0)]))) 1 (lvar 0)
+    = Some (Some (ODict [(1, 7)]%N)).
+Proof. exact round2_examples. Qed.
+Print Assumptions C18_round2_examples.
